@@ -79,12 +79,12 @@ func publishedCorrection(all *defs.All, regime string, addons []string) corrDef 
 }
 
 type c16opts struct {
-	Type      string            `json:"type"`
-	Reason    string            `json:"reason,omitempty"`
-	Ext       map[string]string `json:"ext,omitempty"`
-	Series    string            `json:"series,omitempty"`
-	IssueDate string            `json:"issue_date,omitempty"`
-	CopyTax   bool              `json:"copy_tax,omitempty"`
+	Type      string              `json:"type"`
+	Reason    string              `json:"reason,omitempty"`
+	Ext       map[string]string   `json:"ext,omitempty"`
+	Series    string              `json:"series,omitempty"`
+	IssueDate string              `json:"issue_date,omitempty"`
+	CopyTax   bool                `json:"copy_tax,omitempty"`
 	Stamps    []map[string]string `json:"stamps,omitempty"`
 }
 
